@@ -6,6 +6,10 @@ package reverseproxy
 //@ -- ghost: header name of an injector; values injectors have produced during this rewrite, per canonical key
 //@ ghostfield iface.hname string
 //@ ghost var produced map[string]set[string]
+//@ -- ghost: the value each canonical key's injector last computed successfully during this rewrite ("" = none)
+//@ ghost var yielded map[string]string
+//@ ghost var consulted set[string]
+//@ pure func distinctNames(f *HTTPHandler) bool = forall a int, b int :: 0 <= a && a < b && b < len(f.HeaderInjectors) ==> canon(hname(f.HeaderInjectors[a])) != canon(hname(f.HeaderInjectors[b]))
 
 //@ -- an injected header is either absent or holds exactly one proxy-computed value
 //@ pure func okHeader(h http.Header, k string) bool = !mapHas(h, k) || (len(mapGet(h, k)) == 1 && produced[k][mapGet(h, k)[0]])
@@ -21,19 +25,24 @@ package reverseproxy
 //@ -- assumption about injectors (user code): computing a value does not touch the outbound request
 //@ func HeaderInjector.GetHeaderValue :: hj, req -> v, err
 //@   trusted
-//@   assigns produced
+//@   assigns produced, yielded, consulted
 //@   ensures forall k string, x string :: produced[k][x] <==> (old(produced[k][x]) || (err == nil && k == canon(hname(hj)) && x == v))
+//@   ensures forall k string :: yielded[k] == ite(k == canon(hname(hj)), ite(err == nil, v, ""), old(yielded[k]))
+//@   ensures forall k string :: consulted[k] <==> (old(consulted[k]) || k == canon(hname(hj)))
 
 //@ func (*HTTPHandler).logf
 //@   trusted
 //@   assigns nothing
 
 //@ func (*HTTPHandler).rewriteFunc :: f, r
-//@   props C05,C08,C09
+//@   props C05,C08,C09,C01,C02,C03
 //@   requires f != nil && r != nil && r.In != nil && r.Out != nil && r.In != r.Out && f.To != nil
+//@   requires forall k string :: yielded[k] == "" && !consulted[k]
 //@   requires r.Out.Header != nil && r.In.Header != r.Out.Header
 //@   requires forall k string, x string :: !produced[k][x]
 //@   ensures [C05:absent-or-computed] forall j int :: 0 <= j && j < len(f.HeaderInjectors) ==> okHeader(r.Out.Header, canon(hname(f.HeaderInjectors[j])))
+//@   ensures [C01,C02,C03:every-computed-non-empty-fingerprint-is-forwarded-under-its-header-name] distinctNames(f) ==> (forall j int :: 0 <= j && j < len(f.HeaderInjectors) && yielded[canon(hname(f.HeaderInjectors[j]))] != "" ==> mapHas(r.Out.Header, canon(hname(f.HeaderInjectors[j]))) && mapGet(r.Out.Header, canon(hname(f.HeaderInjectors[j]))) == seq[string]{yielded[canon(hname(f.HeaderInjectors[j]))]})
+//@   ensures [C01,C02,C03:every-injector-is-consulted] distinctNames(f) ==> (forall j int :: 0 <= j && j < len(f.HeaderInjectors) ==> consulted[canon(hname(f.HeaderInjectors[j]))])
 //@   ensures [C09:proto] noFwdInjectors(f) ==> mapHas(r.Out.Header, "X-Forwarded-Proto") && mapGet(r.Out.Header, "X-Forwarded-Proto") == seq[string]{ite(r.In.TLS == nil, "http", "https")}
 //@   ensures [C09:host] noFwdInjectors(f) ==> mapHas(r.Out.Header, "X-Forwarded-Host") && mapGet(r.Out.Header, "X-Forwarded-Host") == seq[string]{r.In.Host}
 //@   ensures [C09:for] noFwdInjectors(f) && splitOK(r.In.RemoteAddr) ==> mapHas(r.Out.Header, "X-Forwarded-For") && mapGet(r.Out.Header, "X-Forwarded-For") == seq[string]{xffValue(r)}
@@ -42,6 +51,9 @@ package reverseproxy
 //@   loop 1 invariant [bounds] -1 <= rangeindex && rangeindex < len(f.HeaderInjectors) || (rangeindex == -1 && len(f.HeaderInjectors) == 0)
 //@   loop 1 invariant [C05:visited-ok] forall j int :: 0 <= j && j <= rangeindex ==> okHeader(r.Out.Header, canon(hname(f.HeaderInjectors[j])))
 //@   loop 1 invariant [produced-keys] forall k string, x string :: produced[k][x] ==> (exists j int :: 0 <= j && j <= rangeindex && k == canon(hname(f.HeaderInjectors[j])))
+//@   loop 1 invariant [C01:visited-carry-their-value] distinctNames(f) ==> (forall j int :: 0 <= j && j <= rangeindex && yielded[canon(hname(f.HeaderInjectors[j]))] != "" ==> mapHas(r.Out.Header, canon(hname(f.HeaderInjectors[j]))) && mapGet(r.Out.Header, canon(hname(f.HeaderInjectors[j]))) == seq[string]{yielded[canon(hname(f.HeaderInjectors[j]))]})
+//@   loop 1 invariant [C01:unvisited-not-yet-computed] forall k string :: yielded[k] != "" || consulted[k] ==> (exists j int :: 0 <= j && j <= rangeindex && k == canon(hname(f.HeaderInjectors[j])))
+//@   loop 1 invariant [C01:visited-consulted] forall j int :: 0 <= j && j <= rangeindex ==> consulted[canon(hname(f.HeaderInjectors[j]))]
 //@   loop 1 invariant [C09:proto] noFwdInjectors(f) ==> mapHas(r.Out.Header, "X-Forwarded-Proto") && mapGet(r.Out.Header, "X-Forwarded-Proto") == seq[string]{ite(r.In.TLS == nil, "http", "https")}
 //@   loop 1 invariant [C09:host] noFwdInjectors(f) ==> mapHas(r.Out.Header, "X-Forwarded-Host") && mapGet(r.Out.Header, "X-Forwarded-Host") == seq[string]{r.In.Host}
 //@   loop 1 invariant [C09:for] noFwdInjectors(f) && splitOK(r.In.RemoteAddr) ==> mapHas(r.Out.Header, "X-Forwarded-For") && mapGet(r.Out.Header, "X-Forwarded-For") == seq[string]{xffValue(r)}
